@@ -33,7 +33,7 @@ RULE = (
     "case = (transport, 1..3 read/write callers on distinct properties, concurrent or sequential, per-transmission ACK plan, per-accepted-request answer plan, "
     "optional close {server DisconnectRequest, transport loss, client disconnect()} at an offset after the n-th request was received, optional reconnect + one more request); "
     "enumerated: 1 request x all ACK plans up to length 2 (4 over a reduced alphabet) x all answers x read/write; 1 request x ACK x answer x close kind x 7 offsets; "
-    "2 requests x ACK plans up to length 2 x all answer pairs x {seq, conc}; 2 requests x close on either; TCP analogues with 1..3 requests; "
+    "2 requests x ACK plans up to length 1 x all answer pairs (length 2: reduced answer alphabet at the quick tier) x {seq, conc}; 2 requests x close on either; TCP analogues with 1..3 requests; "
     "sampled: plans up to 8 ACK / 4 answer symbols with random offsets; non-trivial = plan with at least one fault symbol or a close; distinct by case"
 )
 LEVEL_TEXT = "Every bounded fault plan of the simulated server is executed against the real connection classes in virtual time; answer matching, indication routing, one-outstanding-request, prompt failure on close, repetition count/counter and counter progression are decided from the simulator's wire log and the call outcomes. Longer schedules are sampled, not enumerated."
@@ -485,10 +485,16 @@ def judge(ctx, case, gw, calls, inds, out, raws, escaped) -> None:
                     between = [a for a in acks if t_a < (a["t"], a["tick"]) <= t_b]
                     why = "counter"
                     if got == (exp + 1) & 0xFF:
-                        if any(a["status_code"] == "E_NO_ERROR" and a["communication_channel_id"] != pm[0]["communication_channel_id"] for a in between):
+                        # what made the client believe the previous request was accepted?
+                        t_end = calls[p]["t1"] if p in calls and calls[p].get("t1") is not None else float("inf")
+                        foreign = [a for a in between if a["status_code"] == "E_NO_ERROR" and (a["communication_channel_id"] != pm[0]["communication_channel_id"] or a["sequence_counter"] != pm[0]["sequence_counter"]) and t_end <= a["t"] + TIMEOUT + EPS]
+                        stray = [f for f in frames if f["mc"] != 0xF7 and t_a < (f["t"], f["tick"]) and f["t"] <= pm[-1]["t"] + TIMEOUT + EPS]
+                        if foreign and foreign[0]["communication_channel_id"] != pm[0]["communication_channel_id"]:
                             why = "ack-foreign-channel"
-                        elif any(a["status_code"] == "E_NO_ERROR" and a["sequence_counter"] != pm[0]["sequence_counter"] for a in between):
+                        elif foreign:
                             why = "ack-foreign-counter"
+                        elif stray:
+                            why = "stale-answer-taken-as-acknowledgement"
                         else:
                             why = "advanced-without-acceptance"
                     elif got == (exp - 1) & 0xFF:
@@ -575,7 +581,7 @@ def _j(o):
 # ---------------------------------------------------------------------------
 
 
-def enum_cases(kind: str, arg) -> list[dict]:
+def enum_cases(kind: str, arg, small: bool = True) -> list[dict]:
     cases: list[dict] = []
     R1 = [[{"op": "read", "prop": 0}], [{"op": "write", "prop": 0}]]
     R2 = [{"op": "read", "prop": 0}, {"op": "write", "prop": 1}]
@@ -596,13 +602,19 @@ def enum_cases(kind: str, arg) -> list[dict]:
             for ck in ("sdisc", "cdisc"):
                 for d in CLOSE_DELAYS:
                     cases.append({"transport": "udp", "reqs": R1[0], "ack_plan": [_j(arg)], "ans_plan": [_j(a)], "close": {"kind": ck, "req": 0, "delay": d}, "reconnect": d in (0.0075, 5.0)})
-    elif kind == "udp2":  # 2 requests: ack plans of length <= 2 starting with `arg` (or empty), all answer pairs, seq/conc
-        plans = [[]] if arg is None else [[arg]] + [[arg, b] for b in ACKS]
-        for plan in plans:
+    elif kind == "udp2":  # 2 requests: ack plans of length <= 1, all answer pairs, seq/conc
+        for plan in ([[]] if arg is None else [[arg]]):
             for a in ANSWERS:
                 for b in ANSWERS:
                     for mode in ("seq", "conc"):
                         cases.append({"transport": "udp", "mode": mode, "reqs": R2, "ack_plan": [_j(o) for o in plan], "ans_plan": [_j(a), _j(b)]})
+    elif kind == "udp2ack2":  # 2 requests: ack plans of length 2 starting with `arg`; reduced (quick) or all (thorough) answer pairs
+        answers = ANSWERS_SMALL if small else ANSWERS
+        for b_ in ACKS:
+            for a in answers:
+                for b in answers:
+                    for mode in ("seq", "conc"):
+                        cases.append({"transport": "udp", "mode": mode, "reqs": R2, "ack_plan": [_j(arg), _j(b_)], "ans_plan": [_j(a), _j(b)]})
     elif kind == "udp2close":  # 2 callers, close while either is on the wire
         for a in ANSWERS_SMALL:
             for b in ANSWERS_SMALL:
@@ -629,6 +641,12 @@ def enum_cases(kind: str, arg) -> list[dict]:
         for b in ANSWERS:
             for c in ANSWERS:
                 cases.append({"transport": "tcp", "mode": "conc", "reqs": R3, "ans_plan": [_j(arg), _j(b), _j(c)]})
+    elif kind == "udp3seq":  # 3 sequential requests: the counter of the third shows what the client concluded about the second
+        for b_ in [None, *ACKS]:
+            plan = [arg] if b_ is None else [arg, b_]
+            for a in ANSWERS:
+                for b in ("right", "none"):
+                    cases.append({"transport": "udp", "mode": "seq", "reqs": R3, "ack_plan": [_j(o) for o in plan], "ans_plan": [_j(a), b]})
     elif kind == "udp3":  # thorough: 3 concurrent callers, ack plans of length 3 starting with arg, reduced answers
         for rest in itertools.product(ACKS, repeat=2):
             for ans in itertools.product(ANSWERS_SMALL, repeat=3):
@@ -639,7 +657,7 @@ def enum_cases(kind: str, arg) -> list[dict]:
 
 
 def _enum_shard(ctx, kind: str, arg) -> None:
-    cases = enum_cases(kind, _t(arg) if arg is not None else None)
+    cases = enum_cases(kind, _t(arg) if arg is not None else None, small=ctx.quick)
     nt = 0
     for k, case in enumerate(cases):
         check_case(ctx, case)
@@ -776,6 +794,8 @@ def _shard(ctx, kind: str, *args) -> None:
 def run(ctx) -> None:
     jobs: list[tuple] = [("hyp", ctx.n(60, 2500))] * 16
     jobs += [("udp2", _j(a)) for a in ACKS] + [("udp2", None)]
+    jobs += [("udp2ack2", _j(a)) for a in ACKS]
+    jobs += [("udp3seq", _j(a)) for a in ACKS]
     jobs += [("udp1", _j(a)) for a in ACKS]
     jobs += [("udp1long", a) for a in ACKS_SMALL]
     jobs += [("udp1close", _j(a)) for a in ACKS]
@@ -787,7 +807,7 @@ def run(ctx) -> None:
         jobs += [("udp3", _j(a)) for a in ACKS]
     parallel(ctx, _shard, jobs)
     ctx.exhaustive = False
-    ctx.notes["enumerated"] = "1 request: ACK plans <= 2 (<= 4 reduced) x 11 answers; 2 requests: ACK plans <= 2 x 121 answer pairs x seq/conc; close kinds x 7 offsets on either request; TCP 1..3 requests"
+    ctx.notes["enumerated"] = "1 request: ACK plans <= 2 (<= 4 reduced) x 11 answers; 2 requests: ACK plans <= 1 x 121 answer pairs (length 2: 16 pairs quick / 121 thorough) x seq/conc; close kinds x 7 offsets on either request; TCP 1..3 requests"
 
 
 def replay(ctx, case) -> None:
